@@ -57,7 +57,9 @@ class VerifParamSource(track_params.ParamSource):
         if self._finite is not None and self._k >= self._finite:
             raise StopIteration()
         if _fault("params-raise", self._params.get("task"), self._client, self._k):
-            raise ValueError("verif: injected failure in params()")
+            # whatever a track's own parameter source may raise; the RuntimeError family matters because a generator-based schedule could mistake it
+            # for the end of the source (PEP 479 turns a StopIteration inside a generator into RuntimeError)
+            raise {"RuntimeError": RuntimeError, "NotImplementedError": NotImplementedError, "KeyError": KeyError}.get(FAULT.get("exc"), ValueError)("verif: injected failure in params()")
         reqs = self._params["requests"][self._client % len(self._params["requests"])]
         r = dict(reqs[self._k % len(reqs)])
         r["_k"] = self._k
@@ -228,7 +230,13 @@ def gen_case(rng, want=None):
         spec["svc"] = {"mode": svc_mode, "base": base, "err": err_mode, "seed": rng.randint(0, 1 << 30)}
         tasks.append(spec)
         total_clients += clients
-    return {"tasks": tasks, "pc_offset": rng.choice([0.0, 0.0, 12345.678, 1e4 * rng.random()]), "poisson_seed": rng.randint(0, 1 << 30)}
+    case = {"tasks": tasks, "pc_offset": rng.choice([0.0, 0.0, 12345.678, 1e4 * rng.random()]), "poisson_seed": rng.randint(0, 1 << 30)}
+    # the challenge may hold another, wider schedule element before or after the one that is executed: what the element's clients are told about
+    # their position (index, clients of the element) must not depend on it
+    wider = rng.choice([None, None, None, "before", "after"])
+    if wider:
+        case["wider_neighbour"] = {"where": wider, "clients": total_clients + rng.choice([1, 2, 5, 13])}
+    return case
 
 
 def service_script(case):
@@ -292,13 +300,18 @@ def build_track(case):
             )
         )
     element = tobjs[0] if len(tobjs) == 1 else track.Parallel(tobjs)
-    trk = track.Track("verif", challenges=[track.Challenge("c", default=True, schedule=[element])])
+    schedule = [element]
+    wn = case.get("wider_neighbour")
+    if wn:
+        other = track.Task("wider-neighbour", track.Operation("op-wider-neighbour", "verif-op", params={"requests": [[{"wire": 1}]]}, param_source="verif-source"), iterations=1, clients=wn["clients"])
+        schedule = [other, element] if wn["where"] == "before" else [element, other]
+    trk = track.Track("verif", challenges=[track.Challenge("c", default=True, schedule=schedule)])
     # the allocations are the ones rally's real Allocator produces for this schedule element (client id = row of the matrix), so that what
     # the executor is told about its position among the clients of the element (ramp-up, pacing, partitioning) is rally's, not the harness's
     allocs = []
-    for client_id, row in enumerate(driver.Allocator([element]).allocations):
+    for client_id, row in enumerate(driver.Allocator(schedule).allocations):
         for ta in row:
-            if isinstance(ta, driver.TaskAllocation):
+            if isinstance(ta, driver.TaskAllocation) and any(ta.task is t for t in tobjs):
                 allocs.append((client_id, ta))
     return trk, tobjs, allocs
 
@@ -320,6 +333,8 @@ def run_case(case, scratch):
 
 def features(case):
     f = set()
+    if case.get("wider_neighbour"):
+        f.add("wider-neighbour-" + case["wider_neighbour"]["where"])
     for t in case["tasks"]:
         f.add("mode-" + t["mode"])
         f.add("throttled" if ("target_throughput" in t or "target_interval" in t) else "unthrottled")
